@@ -6,7 +6,7 @@ from spec import step_model as M
 
 PROPERTY = "C11"
 BOUNDS = {
-    "quick": "registry of m sym [0,3] nodes with distinct ids sym [0,255] (empty, sparse, dense, containing 0/254/255 are all instances); request node,child sym [0,255]; one request (5 versions) and two requests with an optional presentation of the new node in between (registry m<=2; versions 1.4, 2.0, 2.2)",
+    "quick": "registry of m sym [0,3] nodes with distinct ids sym [0,255] (empty, sparse, dense, containing 0/254/255 are all instances); request node,child sym [0,255]; one request (5 versions, and with the gateway's version still unknown) and two requests with an optional presentation of the new node in between (registry m<=2; versions 1.4, 2.0, 2.2)",
     "thorough": "m sym [0,4]; two-request histories with m<=3 on all five versions",
 }
 REALISED = []
@@ -22,6 +22,9 @@ def partitions(tier):
     for v in VERSIONS:
         for m in range(0, 4 if q else 5):
             parts.append({"name": "one-%s-m%d" % (v, m), "fn": "sym_one", "version": v, "m": m, "budget": 500 if q else 3000, "cost": 1 + m * m})
+        if v == "1.4":
+            for m in range(0, 3):
+                parts.append({"name": "one-unknown-m%d" % m, "fn": "sym_one", "version": None, "m": m, "budget": 500 if q else 3000, "cost": 1 + m * m})
         if not q or v in ("1.4", "2.0", "2.2"):
             for m in range(0, 3 if q else 4):
                 parts.append({"name": "two-%s-m%d" % (v, m), "fn": "sym_two", "version": v, "m": m, "budget": 500 if q else 3000, "cost": 2 + m * m})
@@ -56,7 +59,8 @@ def _request(inp, gw, tr, ids, n, c, tag):
     before = len(tr.writes)
     kind, val = listen_step(gw)
     tr.on_write = None
-    writes = tr.writes[before:]
+    # while the gateway's version is unknown every message is followed by a version query (C06): not our subject
+    writes = [w for w in tr.writes[before:] if not (gw.protocol_version is None and w == "0;255;3;0;2;\n")]
     top = -1
     for a in ids:
         if a > top:
